@@ -159,6 +159,7 @@ pub fn node(args: &Args) {
         let mut p_log: Vec<(u64, u64)> = vec![];
         let mut f_log: Vec<(u64, u64)> = vec![];
         let mut hash_ctr = 0u8;
+        let mut last_refused: Option<(u8, u64)> = None;
         let snapshot = |node: &std::sync::Arc<lightning_signer::node::Node>| {
             let st = node.get_state();
             let (pm, fm) = (st.velocity_control.clone(), st.fee_velocity_control.clone());
@@ -281,11 +282,18 @@ pub fn node(args: &Args) {
                     _ => rng.below(limit / 2) + 1,
                 };
                 let amt = forced.map(|f| f.2).unwrap_or(amt);
-                hash_ctr += 1;
+                // a refused request is sometimes sent again unchanged (same hash, same amount): it
+                // must be judged afresh, an earlier refusal leaves nothing behind
+                let retry = forced.is_none() && last_refused.is_some() && rng.chance(1, 2);
+                let amt = if retry { last_refused.unwrap().1 } else { amt };
+                if !retry {
+                    hash_ctr += 1;
+                }
                 let mut h = [0u8; 32];
-                h[0] = hash_ctr;
+                h[0] = if retry { last_refused.unwrap().0 } else { hash_ctr };
                 h[1] = (case & 0xff) as u8;
                 let ok = node.add_keysend(payee(), PaymentHash(h), amt).expect("add_keysend");
+                last_refused = if ok { None } else { Some((h[0], amt)) };
                 if ok {
                     n_ok += 1;
                     p_log.push((now, amt));
